@@ -464,6 +464,31 @@ func checkCmd(opts *RunOpts, args []string) int {
 					violations = append(violations, fmt.Sprintf("VIOLATION property=%s replay=%s obligation=%s status=%s%s", prop, rp, ob.Name, ob.Status, suffix))
 					samples = append(samples, map[string]any{"obligation": ob.Name, "verdict": "violation", "status": ob.Status})
 				} else {
+					// an obligation without a baseline (new expression, new call): a failed proof
+					// alone decides nothing, but the real function can be run on small inputs - a
+					// panic or a falsified ledger-proved clause there is a violation with its input
+					if !inLedger && run.World != nil && ob.Kind != "ground" {
+						cx, searched := cexCache[res.Name]
+						if !searched {
+							if c := res.Contract; c != nil {
+								cx, _ = run.World.searchCounterexample(opts, c)
+							}
+							cexCache[res.Name] = cx
+						}
+						if cx != nil {
+							rp := writeReplay(opts, prop, ob, run)
+							in, _ := json.Marshal(cx.Inputs)
+							outj, _ := json.Marshal(cx.Outputs)
+							obs := "results " + string(outj)
+							if cx.PanicMsg != "" {
+								obs = "panic: " + cx.PanicMsg
+							}
+							appendReplay(rp, fmt.Sprintf("\n--- failing input found on the real code (in-package test via go test -overlay; %d small inputs tried) ---\ncontract clause falsified: %s\ninputs: %s\nobserved: %s\n--- replay test (put into the package directory as a _test.go file) ---\n%s\n", cx.Explored, cx.Clause, string(in), obs, cx.TestSrc))
+							violations = append(violations, fmt.Sprintf("VIOLATION property=%s replay=%s obligation=%s status=%s failing-input=%s falsifies=%s observed=%s", prop, rp, ob.Name, ob.Status, string(in), cx.Clause, firstLines(obs, 1)))
+							samples = append(samples, map[string]any{"obligation": ob.Name, "verdict": "violation", "status": ob.Status})
+							continue
+						}
+					}
 					undecided = append(undecided, fmt.Sprintf("UNDECIDED property=%s obligation=%s status=%s (not proved on the baseline tree either; not an alarm)", prop, ob.Name, ob.Status))
 					nObl--
 				}
